@@ -71,6 +71,12 @@ pub(crate) fn b_wrapped(b: &Buffer, i: usize) -> bool {
 pub(crate) fn b_line_len(b: &Buffer, i: usize) -> usize {
     b.lines[i].cells.len()
 }
+pub(crate) fn b_set_wrapped(b: &mut Buffer, i: usize, v: bool) {
+    b.lines[i].wrapped = v;
+}
+pub(crate) fn b_set_line(b: &mut Buffer, i: usize, l: Line) {
+    b.lines[i] = l;
+}
 pub(crate) fn b_clone(b: &Buffer) -> Buffer {
     let mut lines: Vec<Line> = Vec::with_capacity(b.lines.len() + 4);
     for l in b.lines.iter() {
